@@ -89,6 +89,8 @@ func c12base() c12accept {
 		addr: []byte{1, 10, 45, 0, 2}, rqTimer: -1, alwaysOn: -1}
 }
 
+var c12heldUE, c12heldUPF held // addresses reported by the previous extraction, re-examined after the next one
+
 func runC12(ctx *Ctx) {
 	r := ctx.R
 	s, err := loadSchema()
@@ -138,6 +140,8 @@ func runC12(ctx *Ctx) {
 		if a.addr != nil && !bytes.Equal(ip, a.addr[1:5]) {
 			r.Violate("extract/ue-address/value", label, fmt.Sprintf("returned %v, encoded %v; message %x", ip, a.addr[1:5], in), nil)
 		}
+		// the address reported for the previous session is still that address after this extraction
+		c12heldUE.next(r, "extract/ue-address/changed-by-a-later-extraction", ip, label)
 	}
 	// QoS rules length sweep x addresses
 	for q := 0; q <= maxQ; q++ {
@@ -252,6 +256,7 @@ func runC12(ctx *Ctx) {
 		if gotTeid != want || !bytes.Equal(gotIP, upf) {
 			r.Violate("extract/transfer/value", label, fmt.Sprintf("returned TEID %#x UPF %v, encoded %#x %v; transfer %x", gotTeid, gotIP, want, upf, in), nil)
 		}
+		c12heldUPF.next(r, "extract/transfer/upf-address-changed-by-a-later-extraction", gotIP, label)
 	}
 	mkTransfer := func(ambr []int64, teid, upf []byte, flows int, extra int) *refper.Node {
 		ie := func(id int64, crit int64, alt string, v *refper.Node) *refper.Node {
